@@ -4,8 +4,15 @@ from . import env
 from .env import ToolError
 
 
+def available():
+    """False when the library under test no longer compiles with the codec helpers (hooks level 'off'): no replay binary"""
+    return env.hooks_level() != "off"
+
+
 def run(requests, timeout=600):
     """requests: list of dicts. Returns list of observation dicts (same length)."""
+    if not available():
+        raise ToolError("the Rust replay binary cannot be built against this tree (src/verif.rs does not compile): Rust-level replay unavailable")
     data = "\n".join(json.dumps(r, separators=(",", ":")) for r in requests) + "\n"
     try:
         p = subprocess.run([env.replay_bin()], input=data, capture_output=True, text=True, timeout=timeout)
